@@ -102,3 +102,33 @@ Proof.
     + intros w j. upd_cases w t; cbn; apply TM0.
     + intros w j q. upd_cases w t; cbn; apply TR0.
 Qed.
+
+(** ** programs that do not touch the gp state at all (e.g. force_membar_all_threads of the signal flavour) *)
+Fixpoint gpn {R} (p : prog R) : Prop :=
+  match p with
+  | Ret _ => True
+  | Emit es k => (exists name args, es = cli name args /\ neutral (EvCli name args)) /\ gpn k
+  | Act f k =>
+      (forall g, g_list (fst (fst (f g))) = g_list g /\ g_nrec (fst (fst (f g))) = g_nrec g /\ g_tid (fst (fst (f g))) = g_tid g /\
+                 g_acc (fst (fst (f g))) = g_acc g /\ g_lock (fst (fst (f g))) = g_lock g /\ g_ctl (fst (fst (f g))) = g_ctl g /\
+                 exists k0 o ok, snd (f g) = [EvAcc k0 o ok]) /\
+      forall v, gpn (k v)
+  end.
+
+Lemma gpn_bind {A B} (p : prog A) (q : A -> prog B) : gpn p -> (forall r, gpn (q r)) -> gpn (bind p q).
+Proof.
+  unfold bind. induction p as [r|es k IH|f k IH]; intros Hp Hq; cbn [Conc.bind gpn] in *; auto.
+  - destruct Hp as (H1 & H2). split; auto.
+  - destruct Hp as (H1 & H2). split; auto.
+Qed.
+
+Lemma safe1_gpn {R} t (p : prog R) : gpn p -> forall l (Q : R -> L -> Prop), (forall r, Q r l) ->
+  @Conc.safe G V ev Aux L view Inv R t p l Q.
+Proof.
+  induction p as [r|es k IH|f k IH]; intros Hc l Q HQ; cbn [Conc.safe gpn] in *.
+  - apply HQ.
+  - destruct Hc as ((name & args & -> & Hn) & Hk). intros g a tr HI Hv. exists a.
+    split; [unfold cli; rewrite tag1; apply Inv_cli_neutral; assumption|]. split; [apply frame_refl|]. rewrite Hv. apply IH; auto.
+  - destruct Hc as (Hf & Hk). intros g a tr HI Hv. destruct (Hf g) as (F1 & F2 & F3 & F4 & F5 & F6 & k0 & o & ok & Ee).
+    exists a. rewrite Ee. split; [rewrite tag1; apply Inv_acc with (g := g); auto|]. split; [apply frame_refl|]. rewrite Hv. apply IH; auto.
+Qed.
